@@ -359,9 +359,10 @@ public:
 	Array& operator=(const Array& b)
 	{
 		if(this==&b) return *this;
-		if(--d().rc==0) free();
-		_a=b._a;
-		++d().rc;
+		Array c(b); // take the new reference before releasing the old one: b may be owned by an element of this array
+		T* t = _a;
+		_a = c._a;
+		c._a = t;
 		return *this;
 	}
 	
